@@ -8,6 +8,7 @@ Driver handler for C10 (tsquery is type-sound).  Case grammar and observation fo
            no record pulled during Execute; unique non-empty URNs, valid types; every row has one cell per field,
            nil only under a not-required field, dynamic Go type = declared type; strictly increasing timestamps;
            and a query the reference type checker rejects must have been rejected.
+  X cases (filters NOT in the model): model = the observation; only the spec predicate is evaluated.
 -/
 namespace ShpanVerif.Drive.C10
 open ShpanVerif.Util ShpanVerif.Model.Query ShpanVerif.Drive.QueryIO
@@ -97,6 +98,14 @@ def handle (c obs : String) : String × Bool × String :=
     match tblModel ws with
     | some m => (m, true, "")
     | none => ("bad-case", false, "unparsable tbl case")
+  | "X" :: _ =>
+    -- spec-only cases (filters outside the model: stand-alone aligners, delta, rate): only the property's clauses
+    -- are evaluated on the observation of the real code; the observation itself is returned as the model text
+    match parseObs obs with
+    | none => (obs, false, "spec-only: observation not in the protocol format (plan-time panic or malformed)")
+    | some o =>
+      let (ok, why) := soundObs o
+      (obs, ok, if ok then "" else "spec-only: " ++ why)
   | _ =>
     match parseQCase c with
     | none => ("bad-case", false, "unparsable case")
